@@ -150,12 +150,14 @@ func (am *Machine) ProcessOperation(operation client.Operation, storeOperation b
 			"failed to HandleOperation %s (this error is fatal): %w",
 			operation.ID, err)
 	}
+	simYield(am, "air.afterResult")
 
 	if storeOperation && !operation.IsSigningState() {
 		if err := am.storeOperation(operation); err != nil {
 			return "", fmt.Errorf("failed to storeOperation: %w", err)
 		}
 	}
+	simYield(am, "air.afterLog")
 
 	operationBz, err := json.Marshal(resultOperation)
 	if err != nil {
